@@ -213,6 +213,21 @@ class NumpyProxy(types.ModuleType):
     def eye(self, *a, **k):
         return self._filled(numpy.eye, *a, **k)
 
+    # S3: a full reduction of an object array returns the bare element; a plain python number (empty reduction) becomes a Sym
+    def _scalar(self, r):
+        if isinstance(r, (int, float)) and not isinstance(r, bool):
+            return Sym.const(r)
+        return r
+
+    def sum(self, a, *args, **kw):
+        return self._scalar(numpy.sum(a, *args, **kw))
+
+    def prod(self, a, *args, **kw):
+        return self._scalar(numpy.prod(a, *args, **kw))
+
+    def mean(self, a, *args, **kw):
+        return self._scalar(numpy.mean(a, *args, **kw))
+
     # S12: isclose / allclose by numpy's documented formula |a - b| <= atol + rtol * |b| for finite object values
     def isclose(self, a, b, rtol=1e-05, atol=1e-08, equal_nan=False):
         if not (_has_sym(a) or _has_sym(b)):
